@@ -12,6 +12,7 @@ TEXT = {
  "C04": ("3.C04", "All ordered pairs of a 70-document universe built to contain equal values in different number encodings, 2^53 neighbours, prefixes, length-only and deep differences are compared by the real code in all text/binary combinations and must equal the specification's Cmp; antisymmetry, reflexivity, Cmp=0 <=> value equality and (thorough) transitivity over triples are TLC invariants of the specification, transferred to the code by the conformance of every pair."),
  "C05": ("3.C05", "Every document of the bounded universe x every argument the property quantifies over (indices -1..len+1, present keys, case variants, prefixes, extensions, key paths to depth+1 including kind mismatches) is executed against the real accessors; results must equal the tree definition, every returned sub-value byte-identical to Encode(subtree)."),
  "C06": ("3.C06", "Every document of the bounded universe x all positions/key sets/key paths/new values is executed against the real editors and builders; appended bytes must equal Encode of the tree edit, documented errors must match and leave the buffer untouched."),
+ "C07": ("3.C07, 1.1", "spec/System.tla is the state machine of a caller's session (registers holding abstract documents, one append-only output buffer, one action per editing/extraction/building/selection function with arguments drawn from the current documents). TLC checks on every reachable state that registers stay documents whose encoding is canonical (strict Decode, identical re-encoding, sorted unique keys), that byte equality coincides with value identity, and that the buffer only grows; it writes out every enabled single step from every start pair (exhaustive) and thousands of random walks. The harness replays each chain on the real crate, threading the crate's own output bytes from call to call into one shared buffer; spec/Trace.tla re-runs the same ApplyStep operator and requires the real bytes to equal Encode(register) at every step."),
  "C08": ("3.C08", "TLC enumerates ~33k (document, abstract path) cases: navigation sequences over wildcards, three name spellings, 22 index lists (last+-k, ranges, negative, i32 extremes), 170 filters (all operators x operand paths x literals of every kind, literal-left, path-vs-path, root-relative, &&/||/parentheses, exists, nested filters), stand-alone predicates, arithmetic expressions; all-mode data and offsets of the real selector must equal the encodings of spec/Path.tla Eval, evaluation errors must be errors with untouched buffers, never a panic."),
  "C09": ("3.C09", "TLC renders ~600 syntax trees in 8 spelling styles (white space at every inter-token point, keyword case, bare/quoted names, minimal/maximal string escapes, two float lexeme tables) with spec/PathText.tla; the real parser must return the tree the text was rendered from, its printout must parse back to the same tree when nothing needs quoting, 13 certainly-invalid edits per tree must be errors, byte soups must not panic."),
  "C10": ("3.C10", "Fault enumeration by TLC: every truncation, bit flip, boundary-byte substitution, inserted and deleted byte at every offset of 33 encodings (thorough: all double faults on 8 documents), plus header-like JSON texts; both decoders must return a value or an error (a panic is a recorded outcome no spec step allows), returned strings and keys must be well-formed UTF-8 (spec/Utf8.tla), proper prefixes must be errors, valid text must decode to the value the spec's strict parser gives."),
@@ -22,6 +23,7 @@ TEXT = {
  "C15": ("3.C15", "Each (document, path) of the C08 universe is run through all four modes of the Selector API, the three convenience functions, exists/path_exists and predicate_match/path_match, into empty and pre-filled buffers; data and offsets of every mode must equal the specification's ModeItems of the all-mode items, predicates must write the one boolean. Mode consistency laws are TLC invariants of spec/Path.tla."),
  "C16": ("3.C16", "All key paths of <=2 elements over 18 elements (i32 extremes, plain/quoted/empty/escaped/multi-byte names) x 4 spelling styles rendered by spec/PathText.tla must parse to the elements they were rendered from and print back faithfully; 8 certainly-invalid edits per path must be errors; byte soups must not panic."),
  "C17": ("3.C17", "Every buffer-writing function (editors, set functions, builders, encoder, comparable key, path selection) is called twice by the harness: into an empty buffer and into a buffer holding earlier bytes (and offsets, including a batch where an earlier predicate result has no offset); the validator requires after = before ++ what went into the empty buffer, offsets shifted by the prior length, and nothing appended on a documented error."),
+ "C20": ("3.C20", "Index and position arguments at the ends of the i32 range and around -len/len for delete_by_index, array_insert, both key-path functions and JSONPath index forms are executed on the real crate (built with overflow checks) and must give the result of exact integer arithmetic; spec/Limits.tla model-checks on a 6-bit scaled copy which formulations stay in range. 25 routines x 3 nesting shapes x depths up to 300000 run in child processes: the only outcomes the recursion model allows are a result or an error, so a recorded death is rejected; the unbounded-recursion routines are recorded as known findings by routine and ladder rung."),
  "C19": ("3.C19", "For the C03 universe (all string classes, every finite boundary number incl. u64/i64 extremes) the serde_json value built from the bytes and from the tree (logged structurally: u64/i64/f64 bits) must equal the specification's model ToUnsigned(Canon(d)), must match what the spec's strict parser reads from the real text rendering, the object-only variant must agree, and converting back must give a document equal to the original."),
  "C18": ("3.C18", "An 80-number boundary set (every width boundary +-1 of both integer encodings, 2^53/2^63/2^64 neighbourhoods, IEEE class boundaries): every number's encoding, decoding, three views and rendering, every ordered pair's Ord/Eq/PartialOrd, and every tag x length 0..10 for the decoder are executed on the real Number and must equal the exact bit-sequence arithmetic of spec/Num.tla."),
 }
